@@ -39,6 +39,18 @@ def gen_cases(rng, tier):
         if not exact and any(F(x).denominator > 1 << 20 for x in c["pos"] + c["neg"]) and k % 3:
             c = tc.thr_case(rng, True)   # keep the number of big-literal cases low
         cases.append(c)
+    # unsigned integer scores (quantised 8 / 16 bit, values above 127), every configuration
+    for j in range({"quick": 32, "thorough": 320, "search": 120}[tier]):
+        c = tc.thr_case(rng, True)
+        from fractions import Fraction as _Fr
+        n1 = len(c["pos"]) or 2
+        n2 = len(c["neg"]) or 2
+        c["pos"] = [enc(_Fr(v)) for v in rng.sample(range(90, 256), n1)]
+        c["neg"] = [enc(_Fr(v)) for v in rng.sample(range(0, 200), n2)]
+        c["sc"], c["ec"] = CONFIGS[j % 4]
+        c["dtype"] = rng.choice(["uint8", "uint16"])
+        c.pop("dtype_pos", None), c.pop("dtype_neg", None)
+        cases.append(c)
     # large populations (generated from a seed inside the driver, distinct doubles): targets a few samples from either
     # end of the scale, where "within one sample" is a relative accuracy of 1e-5 and below
     for j in range({"quick": 4, "thorough": 24, "search": 8}[tier]):
